@@ -16,16 +16,16 @@ import (
 )
 
 func hooks(r *mc.Run) chainx.Hooks {
-	n := 3
+	n := 2
 	if !r.Quick() {
 		n = 10
 	}
-	return chainx.Hooks{Imports: n}
+	return chainx.Hooks{Imports: n, Warm: true}
 }
 
 func Run(r *mc.Run) {
 	r.Level = "model_checking"
-	r.Rule = "every sequence of <= depth blocks over the block menu, from genesis and from 5 scripted non-initial states; each built block is imported R times on independent database copies (R=3 quick, 10 thorough); distinct = distinct head block hashes reached"
+	r.Rule = "every sequence of <= depth blocks over the block menu, from genesis and from 5 scripted non-initial states; each built block is imported R times on independent database copies (R=2 quick, 10 thorough); distinct = distinct head block hashes reached"
 	noForced := chainx.DefaultCfg
 	noForced.MaxRewardsPeriod = 1000
 	forced := chainx.DefaultCfg
@@ -36,14 +36,17 @@ func Run(r *mc.Run) {
 	r.SetExtra("imports_per_block", h.Imports)
 	if r.Quick() {
 		r.SetBudget(170e9)
-		chainx.Explore(r, h, []chainx.ParamCfg{noForced}, chainx.MenuCore, 3, 3)
-		chainx.Explore(r, h, []chainx.ParamCfg{forced}, chainx.MenuCore, 3, 2)
+		runForks(r) // first: cheap, and independent of the exploration budget
+		chainx.Explore(r, h, []chainx.ParamCfg{noForced}, chainx.MenuCore, 3, 2)
+		chainx.Explore(r, h, []chainx.ParamCfg{forced}, chainx.MenuCore, 2, 2)
 	} else {
 		r.SetBudget(45 * 60e9)
 		menu := append(append([]string{}, chainx.MenuCore...), chainx.MenuMore...)
 		chainx.Explore(r, h, []chainx.ParamCfg{noForced, freq3, forced}, menu, 4, 3)
 	}
-	runForks(r)
+	if !r.Quick() {
+		runForks(r)
+	}
 	r.Assume("Go's per-iteration map order cannot be enumerated by a controlled explorer; the R repeated imports are a sampled supplement for that clause, the exhaustive part is builder/importer agreement over all histories")
 }
 
